@@ -411,3 +411,51 @@ Proof.
   pose proof (parse_on_ignores_scratch st f len toks) as H.
   destruct (parse_on st f len toks) as [st' res]. cbn [snd] in H. rewrite H, IH. reflexivity.
 Qed.
+
+(* ---------- C01: the read side of Args ---------- *)
+Lemma option_access_agrees f a n m o :
+  get_option f n true = Ok o -> get_option f m true = Ok o ->
+  args_option f a n = args_option f a m.
+Proof. intros Hn Hm. unfold args_option. rewrite Hn, Hm. reflexivity. Qed.
+
+Lemma option_set_agrees f a n m o :
+  has_option f n true = true -> has_option f m true = true ->
+  get_option f n true = Ok o -> get_option f m true = Ok o ->
+  args_is_option_set f a n = args_is_option_set f a m.
+Proof. intros H1 H2 Hn Hm. unfold args_is_option_set. rewrite H1, H2, Hn, Hm. reflexivity. Qed.
+
+Lemma argument_access_agrees f a r1 r2 ar :
+  get_argument f r1 true = Ok ar -> get_argument f r2 true = Ok ar ->
+  args_argument f a r1 = args_argument f a r2.
+Proof. intros H1 H2. unfold args_argument. rewrite H1, H2. reflexivity. Qed.
+
+Lemma argument_set_agrees f a r1 r2 ar :
+  has_argument f r1 true = true -> has_argument f r2 true = true ->
+  get_argument f r1 true = Ok ar -> get_argument f r2 true = Ok ar ->
+  args_is_argument_set f a r1 = args_is_argument_set f a r2.
+Proof. intros G1 G2 H1 H2. unfold args_is_argument_set. rewrite G1, G2, H1, H2. reflexivity. Qed.
+
+Lemma unset_option_default f a n o :
+  get_option f n true = Ok o -> sget (o_long o) (ar_opts a) = None ->
+  args_option f a n = Ok (if o_accepts o then o_default o else VBool false).
+Proof. intros H1 H2. unfold args_option. rewrite H1. cbn [bind]. rewrite H2. reflexivity. Qed.
+Lemma unset_argument_default f a r ar :
+  get_argument f r true = Ok ar -> sget (a_name ar) (ar_args a) = None ->
+  args_argument f a r = Ok (a_default ar).
+Proof. intros H1 H2. unfold args_argument. rewrite H1. cbn [bind]. rewrite H2. reflexivity. Qed.
+
+(* after the "--" separator no token is read as an option: the option scratch map is frozen *)
+Lemma loop_after_dd_keeps_options f len : forall fuel st toks,
+  ps_opts (fst (loop fuel f len false st toks)) = ps_opts st.
+Proof.
+  induction fuel as [|fuel IH]; intros st toks; cbn [loop]; [reflexivity|].
+  destruct toks as [|tok rest]; [reflexivity|]. cbn [andb].
+  unfold parse_argument.
+  destruct (has_argument f (APos (Z.of_nat (length (ps_args st)))) true).
+  - destruct (get_argument f _ true) as [a|k]; cbn [bind]; [|reflexivity].
+    destruct (a_multi a); rewrite IH; reflexivity.
+  - destruct (has_argument f (APos (Z.of_nat (length (ps_args st)) - 1)) true).
+    + destruct (get_argument f _ true) as [a|k]; cbn [bind]; [|reflexivity].
+      destruct (a_multi a); [rewrite IH; reflexivity|]. destruct len; [apply IH|reflexivity].
+    + destruct len; [apply IH|reflexivity].
+Qed.
